@@ -15,7 +15,7 @@ DEFAULT_PROFILE = {
     "p_ctx_shuffle": 0.2, "p_app_dup": 0.12, "p_rule_field_variant": 0.12, "p_defaults_lists": 0.12, "p_global_dep_order": 0.05,
     "p_late_ifthen_leaf": 0.06, "p_dup_listing": 0.08,
     "p_rule_rename_chain": 0.07, "p_ifthen_feature_cond": 0.07, "p_empty_blockallow": 0.07, "p_rule_export_escape": 0.07,
-    "p_optsrc_same_guard": 0.07, "p_subdirs_later_doc": 0.06, "p_shadowed_provider": 0.07, "p_two_patched_downloads": 0.05, "p_custom_build_no_out": 0.04, "p_cli_comma_define": 0.05,
+    "p_optsrc_same_guard": 0.07, "p_subdirs_later_doc": 0.06, "p_shadowed_provider": 0.07, "p_two_patched_downloads": 0.05, "p_custom_build_no_out": 0.04, "p_cli_comma_define": 0.05, "p_self_named_unique": 0.05,
     "p_cycle": 0.02, "p_task_fail": 0.0, "p_root_noenv": 0.06, "p_out_per_builder": 0.3, "p_same_override": 0.15, "p_hard_missing": 0.03, "p_app_elsewhere": 0.25,
 }
 
@@ -384,6 +384,86 @@ class Gen:
         return a
 
 
+def folded_defines(defs):
+    """the --define list folded in order into one env, as the cache key sees it (`V=x` replaces, `V+=x` appends to a list / replaces a
+    single value)"""
+    env = {}
+    for d in defs or []:
+        i = d.find("=")
+        if i < 0:
+            env[d] = ("?", d)
+        elif i > 0 and d[i - 1] == "+":
+            k, v = d[:i - 1], d[i + 1:]
+            env[k] = ("l", env[k][1] + (v,)) if k in env and env[k][0] == "l" else ("l", (v,))
+        else:
+            env[d[:i]] = ("s", d[i + 1:])
+    return env
+
+
+def sibling_args(a, rng):
+    """a command line that differs from `a` in ONE component of the cache key in a way that must NOT let its cache serve `a`
+    (a select made optional/hard or moved to --disable, the selects in another order, `=` <-> `+=` of a define, one define dropped,
+    a narrower --builders / --apps list, another partition): run first in the same build directory, it must leave no trace"""
+    b = {k: (list(v) if isinstance(v, list) else v) for k, v in a.items() if not k.startswith("_") and k != "info_export"}
+    opts = []
+    if b.get("select"):
+        opts += ["sel-kind", "sel-to-disable"] + (["sel-order"] if len(b["select"]) > 1 and b["select"] != b["select"][::-1] else [])
+    if b.get("disable"):
+        opts += ["dis-to-select"]
+    if b.get("define"):
+        opts += ["def-kind", "def-drop"]
+    if b.get("builders") and len(b["builders"]) > 1:
+        opts += ["fewer-builders"]
+    if b.get("apps") and len(b["apps"]) > 1:
+        opts += ["fewer-apps"]
+    if b.get("partition"):
+        opts += ["other-partition"]
+    if not opts:
+        return None
+    how = rng.choice(opts)
+    if how == "sel-kind":
+        i = rng.randrange(len(b["select"]))
+        x = b["select"][i]
+        b["select"][i] = x[1:] if x.startswith("?") else "?" + x
+    elif how == "sel-to-disable":
+        x = b["select"].pop(rng.randrange(len(b["select"])))
+        b["disable"] = list(b.get("disable") or []) + [x.lstrip("?")]
+        if not b["select"]:
+            del b["select"]
+    elif how == "sel-order":
+        b["select"] = b["select"][::-1]
+    elif how == "dis-to-select":
+        x = b["disable"].pop(rng.randrange(len(b["disable"])))
+        b["select"] = list(b.get("select") or []) + ["?" + x]
+        if not b["disable"]:
+            del b["disable"]
+    elif how == "def-kind":
+        i = rng.randrange(len(b["define"]))
+        d = b["define"][i]
+        if "+=" in d and "=" not in d.split("+=")[0]:
+            k, v = d.split("+=", 1)
+            b["define"][i] = k + "=" + v
+        elif "=" in d:
+            k, v = d.split("=", 1)
+            b["define"][i] = k + "+=" + v
+    elif how == "def-drop":
+        b["define"].pop(rng.randrange(len(b["define"])))
+        if not b["define"]:
+            del b["define"]
+    elif how == "fewer-builders":
+        b["builders"] = b["builders"][:-1]
+    elif how == "fewer-apps":
+        b["apps"] = b["apps"][:-1]
+    elif how == "other-partition":
+        b["partition"] = "count:1/3" if b["partition"] != "count:1/3" else "count:2/3"
+    if b == {k: v for k, v in a.items() if not k.startswith("_") and k != "info_export"}:
+        return None
+    if how.startswith("def-") and folded_defines(b.get("define")) == folded_defines(a.get("define")):
+        return None         # the same assignments after folding: the same request
+    b["_how"] = how
+    return b
+
+
 def gen_project(seed, index, prof=None):
     rng = random.Random(seed * 1000003 + index)
     from . import shapes
@@ -392,4 +472,12 @@ def gen_project(seed, index, prof=None):
     # a third of the runs also write the info export (own PRNG stream: the project of a (seed, index) stays what it was)
     if random.Random(seed * 104729 + index * 7 + 3).random() < prof.get("p_info_export", 0.34):
         p.setdefault("args", {})["info_export"] = True
+    # one run in eight is preceded, in the same build directory, by a run with a sibling command line (own PRNG stream): what that
+    # run leaves in the cache must not serve this one. Not with --info-export (cache off) and not in local mode.
+    r2 = random.Random(seed * 15485863 + index * 11 + 5)
+    a = p.get("args", {})
+    if r2.random() < prof.get("p_sibling_before", 0.125) and not a.get("info_export") and a.get("local") is None:
+        sib = sibling_args(a, r2)
+        if sib is not None:
+            a["_before"] = sib
     return p
